@@ -270,6 +270,7 @@ func checkC10(p *Program, r *Report) {
 	checkSessionTypestate(p, r, "C10.session-valid")
 
 	checkTailConsistent(p, r)
+	checkBitSlice(p, r, "C10.bitslice")
 
 	// ---- keys are bytes: no lookup or scan walks key material by runes
 	checkNoRuneWalk(p, r, "C10.bytes-not-runes", p.Method(p.Trie, "SlimTrie", "Get"), p.Method(p.Trie, "SlimTrie", "GetID"), p.Method(p.Trie, "SlimTrie", "RangeGet"),
